@@ -625,6 +625,57 @@ def work_arrays(shard):
 
 
 # ---------------------------------------------------------------------------
+# tight memory: a value set through the API while memory is nearly full is stored intact or refused
+
+def work_tight(shard):
+    H = _H()
+    part = Partial()
+    for free, length, kind in shard:
+        case = {'free': free, 'length': length, 'kind': kind}
+        s = H.new_session()
+        f0 = s.evaluate(b'FRE(0)')
+        r = H.run(s, b'CLEAR ,%d' % (65534 - int(f0) + 40 + free))
+        if r.err is not None or r.exc is not None:
+            raise CheckError('CLEAR failed: %r' % r)
+        # a string that exists already and garbage behind it, so that a collection has work to do
+        r = H.run(s, b'P$="pre"+"x":G$=SPACE$(20):G$=""')
+        if r.err is not None or r.exc is not None:
+            raise CheckError('set-up failed: %r' % r)
+        r = H.run(s, b'Q$=SPACE$(FRE(0)-%d)' % free)
+        f1 = int(s.evaluate(b'FRE(0)'))
+        value = bytes(bytearray(65 + (i % 26) for i in range(length)))
+        name = {'scalar': 'N$', 'longname': 'NEWSTRINGVARIABLE$', 'array': 'NA$()'}[kind]
+        cls = 'tight/%s/free%s' % (kind, 'lt' if f1 < length + 4 else 'ge')
+        ok, res = _guard(part, cls, case, s.set_variable, name, [value, b'z'] if kind == 'array' else value)
+        part.n += 1
+        part.traces += 1
+        if ok:
+            okg, got = _guard(part, cls, case, s.get_variable, name)
+            want = value
+            if kind == 'array':
+                got = got[0] if okg and got else got
+            if okg and got != want:
+                part.violation(cls + '/stored-value-differs', 'with %d bytes free set_variable(%s, %r) succeeded but reads back %r' % (
+                    f1, name, value, got), case)
+            part.outcome('tight:stored')
+        else:
+            part.outcome('tight:refused')
+        # whatever happened: the other variables are intact and a collection works
+        okp, pre = _guard(part, cls, case, s.get_variable, 'P$')
+        if okp and pre != b'prex':
+            part.violation(cls + '/other-variable-changed', 'P$ reads %r after set_variable(%s) with %d bytes free' % (pre, name, f1), case)
+        okf, _fre = _guard(part, cls, case, s.evaluate, b'FRE("")')
+        if ok:
+            okg, got = _guard(part, cls, case, s.get_variable, name)
+            if kind == 'array':
+                got = got[0] if okg and got else got
+            if okg and got != value:
+                part.violation(cls + '/value-lost-in-collection', 'after FRE("") %s reads back %r, set %r' % (name, got, value), case)
+        part.classes.add(cls)
+        s.close()
+    part.sample({'tight': list(shard[0])})
+    return part
+
 
 def legs(ctx):
     out = []
@@ -664,12 +715,20 @@ def legs(ctx):
     out.append(Leg('arrays', list(chunked(ac, 24)), work_arrays, exhaustive=True,
                    bound='all %d = 39 shapes (1-3 dims, extents 1-3) x 4 types x 3 OPTION BASE settings x '
                          '{dimensioned, undimensioned}' % len(ac)))
+    tc = [(free, length, kind) for kind in ('scalar', 'longname', 'array') for length in ((1, 7, 12) if ctx.quick else (1, 3, 7, 12, 23, 60))
+          for free in range(0, 40 if ctx.quick else 90)]
+    out.append(Leg('tight', list(chunked(tc, 30)), work_tight, exhaustive=True,
+                   bound='new string scalar (short and long name) and string array set through the API with every amount of free '
+                         'memory 0..%d bytes x %d string lengths: stored intact (also after a collection) or refused, other '
+                         'variables untouched' % (39 if ctx.quick else 89, 3 if ctx.quick else 6)))
     return out
 
 
 def replay(ctx, leg, case):
     H = _H()
     part = Partial()
+    if leg == 'tight':
+        return work_tight([(case['free'], case['length'], case['kind'])])
     if leg == 'int':
         v = case.get('value', 0)
         return work_int((v, v + 1))
